@@ -18,7 +18,7 @@ _USE_PATTERN_MATCHING = (sys.version_info >= (3, 10))
 
 
 class PyRTLProcess(BaseProcess):
-    __slots__ = ("is_comb", "runnable", "critical", "run")
+    __slots__ = ("is_comb", "runnable", "critical", "run", "clocked")
 
     def __init__(self, *, is_comb):
         self.is_comb  = is_comb
@@ -28,6 +28,7 @@ class PyRTLProcess(BaseProcess):
     def reset(self):
         self.runnable = self.is_comb
         self.critical = False
+        self.clocked  = False
 
 
 class _PythonEmitter:
@@ -466,6 +467,17 @@ def edge_waker(process, polarity):
     return waker
 
 
+def clock_edge_waker(process, polarity):
+    # Like `edge_waker()`, but records that the process was woken up by the active clock edge
+    # (as opposed to an asynchronous reset).
+    def waker(curr, next):
+        if next == polarity:
+            process.runnable = True
+            process.clocked  = True
+        return True
+    return waker
+
+
 def memory_waker(process):
     def waker():
         process.runnable = True
@@ -534,15 +546,28 @@ class _FragmentCompiler:
             else:
                 domain = fragment.domains[domain_name]
                 clk_polarity = 1 if domain.clk_edge == "pos" else 0
-                self.state.add_signal_waker(domain.clk, edge_waker(domain_process, clk_polarity))
-                if domain.async_reset and domain.rst is not None:
+                # The assertion of an asynchronous reset wakes up the process as well, but only
+                # the active clock edge may update the state (reset-less signals, memories).
+                async_reset = domain.async_reset and domain.rst is not None
+                if async_reset:
+                    self.state.add_signal_waker(domain.clk, clock_edge_waker(domain_process, clk_polarity))
                     self.state.add_signal_waker(domain.rst, edge_waker(domain_process, 1))
+                else:
+                    self.state.add_signal_waker(domain.clk, edge_waker(domain_process, clk_polarity))
 
                 for (signal, _) in lhs_masks.masks():
                     signal_index = self.state.get_signal(signal)
                     emitter.append(f"next_{signal_index} = slots[{signal_index}].next")
 
-                _StatementCompiler(self.state, emitter)(domain_stmts)
+                if async_reset:
+                    emitter.append("clocked = process.clocked")
+                    emitter.append("process.clocked = False")
+                    emitter.append("if clocked:")
+                    with emitter.indent():
+                        emitter.append("pass")
+                        _StatementCompiler(self.state, emitter)(domain_stmts)
+                else:
+                    _StatementCompiler(self.state, emitter)(domain_stmts)
 
                 if domain.rst is not None:
                     rhs = _RHSValueCompiler(self.state, emitter, mode="curr")
@@ -555,6 +580,11 @@ class _FragmentCompiler:
                             if not signal.reset_less:
                                 signal_index = self.state.get_signal(signal)
                                 emitter.append(f"next_{signal_index} = {signal.init}")
+
+                if isinstance(fragment, MemoryInstance) and async_reset:
+                    emitter.append("if clocked:")
+                    emitter._level += 1
+                    emitter.append("pass")
 
                 if isinstance(fragment, MemoryInstance):
                     memory_index = self.state.get_memory(fragment._data)
@@ -597,6 +627,9 @@ class _FragmentCompiler:
 
                             lhs(port._data)(data)
 
+                if isinstance(fragment, MemoryInstance) and async_reset:
+                    emitter._level -= 1
+
             for (signal, mask) in lhs_masks.masks():
                 if signal.shape().signed and (mask & 1 << (len(signal) - 1)):
                     mask |= -1 << len(signal)
@@ -616,6 +649,7 @@ class _FragmentCompiler:
 
             exec_locals = {
                 "slots": self.state.slots,
+                "process": domain_process,
                 **_ValueCompiler.helpers,
                 **_StatementCompiler.helpers,
             }
